@@ -12,6 +12,7 @@ UMap == <<<<"my.op", "U.gelu">>, <<"F.silu", "my.silu">>>>       \* a user op ma
 EmptyS == [G |-> [nodes |-> <<>>, order |-> <<>>], pc |-> "none", cur |-> 0, deps |-> [x \in {} |-> {}], rmeta |-> [x \in {} |-> 0], umap |-> <<>>]
 Init == /\ G = [nodes |-> <<PH("x"), PH("w")>>, order |-> <<1, 2>>] /\ phase = "gen" /\ s = EmptyS /\ G0 = G
 Unary == {"F.gelu", "torch.tanh", "F.softmax", "my.op", "F.silu"}
+GenAdds == {"op.add", "torch.add", "m:add_"}      \* one representative per family of add forms (operator / function / method)
 Gen == /\ phase = "gen"
        /\ LET n == Len(G.nodes) IN
           IF n = K + 2
@@ -19,7 +20,7 @@ Gen == /\ phase = "gen"
                IN G' = G1 /\ G0' = G1 /\ phase' = "run" /\ s' = StartState(G1, UMap)
           ELSE /\ \/ \E t \in Unary, a \in 1 .. n : G' = [nodes |-> Append(G.nodes, Call(t, <<N(a)>>, <<>>)), order |-> Append(G.order, n + 1)]
                   \/ \E a \in 1 .. n : G' = [nodes |-> Append(G.nodes, Call("F.linear", <<N(a), N(2)>>, <<>>)), order |-> Append(G.order, n + 1)]
-                  \/ \E t \in AddTargets, a \in 1 .. n, b \in 1 .. n : G' = [nodes |-> Append(G.nodes, Call(t, <<N(a), N(b)>>, <<>>)), order |-> Append(G.order, n + 1)]
+                  \/ \E t \in GenAdds, a \in 1 .. n, b \in 1 .. n : G' = [nodes |-> Append(G.nodes, Call(t, <<N(a), N(b)>>, <<>>)), order |-> Append(G.order, n + 1)]
                   \/ \E a \in 1 .. n : G' = [nodes |-> Append(G.nodes, Call("op.add", <<N(a), C("2")>>, <<>>)), order |-> Append(G.order, n + 1)]
                /\ UNCHANGED <<s, phase, G0>>
 Run == /\ phase = "run" /\ s.pc # "Done" /\ s' = Step(s) /\ UNCHANGED <<G, phase, G0>>
